@@ -1002,8 +1002,14 @@ func localfsRun(args []string) int {
 		trace: NewTrace(o.Out), seen: map[string]bool{}, defs: map[string]bool{}, bySeed: map[uint64]localfsContent{},
 		stats: NewStats("localfs", "one case = one fresh directory tree and a sequence of real LocalBackend calls in a strace'd child process (or 4 readers x 2 writers in-process); distinct by the sequence of (call, outcome, number of system calls, new directories); counted as non-trivial when at least one upload went through temp file + rename (or, for readers, at least two different values were read)")}
 	code := 0
+	start := time.Now()
 	run := func(cs []*localfsCase) {
 		for _, c := range cs {
+			// search mode is called with a wall-clock budget by the runner: stop generating in time
+			if o.Search && time.Since(start) > 100*time.Second {
+				g.stats.Count("search-cases-skipped-deadline")
+				continue
+			}
 			if err := g.localfsRunCase(c); err != nil {
 				fmt.Fprintln(os.Stderr, "localfs:", c.Name+":", err)
 				g.stats.Notes = append(g.stats.Notes, "engine error: "+c.Name+": "+err.Error())
@@ -1049,11 +1055,20 @@ func localfsRun(args []string) int {
 		if o.Search {
 			tier = "thorough"
 		}
-		run(localfsFamilyImm(r.Fork(), tier))
-		run(localfsFamilyTrace(r.Fork(), tier))
-		run(localfsFamilyKeys(r.Fork(), tier))
-		run(localfsFamilyKill(r.Fork(), tier))
-		run(localfsFamilyConc(r.Fork(), tier))
+		if o.Search {
+			// oracle only; every family gets its share of the budget, the widest (keys) last
+			run(localfsFamilyTrace(r.Fork(), tier))
+			run(localfsFamilyKill(r.Fork(), tier))
+			run(localfsFamilyConc(r.Fork(), "quick"))
+			run(localfsFamilyImm(r.Fork(), "quick"))
+			run(localfsFamilyKeys(r.Fork(), tier))
+		} else {
+			run(localfsFamilyImm(r.Fork(), tier))
+			run(localfsFamilyTrace(r.Fork(), tier))
+			run(localfsFamilyKeys(r.Fork(), tier))
+			run(localfsFamilyKill(r.Fork(), tier))
+			run(localfsFamilyConc(r.Fork(), tier))
+		}
 	}
 	g.trace.Close()
 	g.stats.Exhaustive = false
